@@ -804,7 +804,11 @@ pub fn format_function_call_stmt(
 /// Functions which are used to only format a block within a statement
 /// These are used for range formatting
 pub(crate) mod stmt_block {
-    use crate::{context::Context, formatters::block::format_block, shape::Shape};
+    use crate::{
+        context::{Context, FormatNode},
+        formatters::block::format_block,
+        shape::Shape,
+    };
     #[cfg(feature = "luau")]
     use full_moon::ast::luau::TypeFunction;
     use full_moon::ast::{
@@ -817,10 +821,19 @@ pub(crate) mod stmt_block {
         table_constructor: &TableConstructor,
         shape: Shape,
     ) -> TableConstructor {
+        // A field can be preceded by `-- stylua: ignore` (or sit inside an ignore start/end region), in the same way
+        // as in `format_multiline_table`: such a field is left exactly as it is
+        let mut ctx = *ctx;
         let fields = table_constructor
             .fields()
             .pairs()
             .map(|pair| {
+                ctx = ctx.check_toggle_formatting(pair.value());
+                if matches!(ctx.should_format_node(pair.value()), FormatNode::Skip) {
+                    return pair.to_owned();
+                }
+                let ctx = &ctx;
+
                 pair.to_owned().map(|field| match field {
                     Field::ExpressionKey {
                         brackets,
